@@ -114,6 +114,12 @@ DeclToks(d, style) ==
       [] d.kind = "device"  -> PrDevice(d)
       [] d.kind = "mod"     -> PrMod(d)
       [] d.kind = "garbage" -> <<W("struct"), W("Broken"), P("{"), W("q"), P("@")>>     \* a truncated declaration
+      [] d.kind = "invalid" ->      \* parses, but the declaration is not a legal one (the front end's callbacks raise on these)
+           CASE d.how = "param"   -> <<W("struct"), W("Odd"), P("{"), W("q"), P("@"), IntTok(0), P(":"), W("u8"), P("|"),
+                                        W("nosuch"), P("("), Q("C"), P(")"), P(","), P("}")>>
+             [] d.how = "enumstr" -> <<W("enum"), W("Odd"), P("{"), W("Kelvin"), P("="), Q("K"), P(","), P("}")>>
+             [] d.how = "range1"  -> <<W("struct"), W("Odd"), P("{"), W("q"), P("@"), IntTok(0), P(":"), W("u8"), P("|"),
+                                        W("range"), P("("), W("1"), P(")"), P(","), P("}")>>
 
 FileToks(decls, style) == PrPreamble \o Flat([i \in 1..Len(decls) |-> DeclToks(decls[i], style)])
 
